@@ -129,6 +129,19 @@ def decide(pid, tier, seed, jobs, record, no_bounded, t0):
             guard_problems.append(f"{f}: zero obligations generated")
     bounded_only = not fns
 
+    # ---- static frame obligation: no function of the property's modules writes module-level state (pyvc/framecheck.py)
+    from pyvc import framecheck
+    anchor_files = []
+    try:
+        for l in open(os.path.join(VERIF, "properties.jsonl")):
+            pj = json.loads(l)
+            if pj["id"] == pid:
+                anchor_files = [f for f in pj.get("anchors", {}).get("files", []) if f.endswith(".py")]
+    except Exception:
+        pass
+    fn_files = [r.get("source", {}).get("file") for r in results if r.get("source", {}).get("file")]
+    frame = framecheck.check_files(extract.REPO, anchor_files + [f for f in fn_files if f and f.endswith(".py")])
+
     # ---- Lean lemma library (thorough tier): rebuilt offline and audited; a failure is a problem of the machinery, not a violation
     lean = run_lean() if tier == "thorough" else {"ran": False, "note": "the Lean library is rebuilt and audited by the thorough tier (lean/check.sh)"}
     if lean.get("ran") and not lean.get("passed"):
@@ -180,6 +193,10 @@ def decide(pid, tier, seed, jobs, record, no_bounded, t0):
         lines.append(f"UNDECIDED property={pid} obligation={o['name']} reason={o.get('reason', 'unknown')}")
     for r in undecided_fns:
         lines.append(f"UNDECIDED property={pid} function={r['function']} reason={r['status']}: {r.get('reason', '')[:200]}")
+    for w in frame["writes"]:
+        undecided += 1
+        lines.append(f"UNDECIDED property={pid} frame.no_module_state {w['file']}:{w['line']} {w['function']} {w['how']} `{w['name']}`: "
+                     "the contracts read functions as relations on their arguments; state kept between calls is not accounted for")
     # a vacuous cover is an error for preconditions and exits; a loop body may legitimately be unreachable on SOME of the
     # paths that reach the loop (e.g. an empty list on that path) but not on all of them
     by_name = {}
@@ -197,6 +214,8 @@ def decide(pid, tier, seed, jobs, record, no_bounded, t0):
     ev = evidence(pid, tier, seed, meta, reg, fns, results, proof_obls, discharged, refuted, unknown, covers,
                   undecided_fns, bounded, violations, guard_problems, known_hits, time.time() - t0)
     ev["coverage"]["lean_library"] = lean
+    ev["coverage"]["frame_no_module_state"] = {"files_scanned": frame["files"], "writes_found": frame["writes"],
+                                               "meaning": "syntactic frame obligation: no function of these modules rebinds a global or mutates a module-level object (aliases not tracked)"}
     evdir = os.environ.get("VERIF_EVIDENCE_DIR", os.path.join(VERIF, "evidence"))   # (redirected only by tools/seeded_matrix.py)
     os.makedirs(evdir, exist_ok=True)
     json.dump(ev, open(os.path.join(evdir, f"{pid}.json"), "w"), indent=1)
